@@ -643,7 +643,10 @@ def check_property(prop, tier, seed):
             print("INTERNAL:", x)
         if bounded.get("error"):
             print("INTERNAL (bounded):", bounded["error"])
-        return 3
+        if not vio_count:
+            return 3
+        # a violation was reported (VIOLATION lines above, each with its replay file): that is the verdict of this run even
+        # though another part of the checker could not cope with this tree (reported above as INTERNAL)
     if vio_count:
         return 1
     if undecided:
